@@ -29,6 +29,8 @@ Definition leaf_eqb (a b : leaf) : bool :=
   | EthTx a1 n1 g1 p1 v1, EthTx a2 n2 g2 p2 v2 => Nat.eqb a1 a2 && Nat.eqb n1 n2 && (g1 =? g2) && (p1 =? p2) && (v1 =? v2)
   | Send a1, Send a2 => Nat.eqb a1 a2
   | Grant a1 b1 k1, Grant a2 b2 k2 => Nat.eqb a1 a2 && Nat.eqb b1 b2 && mkind_eqb k1 k2
+  | EthTxAs c1 a1 n1 g1 p1 v1, EthTxAs c2 a2 n2 g2 p2 v2 =>
+      Nat.eqb c1 c2 && Nat.eqb a1 a2 && Nat.eqb n1 n2 && (g1 =? g2) && (p1 =? p2) && (v1 =? v2)
   | _, _ => false
   end.
 
